@@ -7,7 +7,7 @@ from lib import core
 from lib.core import cz, czl
 from harness import common, sess, smppref
 
-THEOREMS = ['C02_accepted_response_stores_original', 'C02_receipt_plain', 'C02_receipt_unknown', 'C02_segmented_receipts', 'C02_concurrent_receipts', 'C02_concurrent_nonvacuous', 'C02_failing_receipt_wins', 'C02_nonvacuous']
+THEOREMS = ['C02_accepted_response_stores_original', 'C02_receipt_plain', 'C02_receipt_unsegmented', 'C02_receipt_unknown', 'C02_segmented_receipts', 'C02_concurrent_receipts', 'C02_concurrent_nonvacuous', 'C02_failing_receipt_wins', 'C02_nonvacuous']
 IMPORTS = ['AV.Model.Base', 'AV.Model.PyDict', 'AV.Model.Limiter', 'AV.Model.Correlator', 'AV.Model.Seq', 'AV.Model.Handlers']
 
 
@@ -59,6 +59,14 @@ def gen_history(rng, thorough):
     # interleave: puts of one message stay in order (the sender sends segments in order); others random
     pools = [c for chains in events_per_msg for c in chains]
     out = []
+    if rng.random() < 0.3:
+        # sequence numbers come round again (restart on a persisted correlator): unsegmented messages sent and accepted earlier under the
+        # numbers that the messages of this history use; their receipts are still to come
+        for j in range(rng.randint(1, min(3, seq[0]))):
+            mid[0] += 1
+            out.append(('put', nu(), j + 1, nmsg + 1 + j, (0, 0, 0)))
+            out.append(('resp', nu(), 0x80000004, j + 1, 0, mid[0]))
+            pools.append([('rcpt', nu(), mid[0], rng.choice([0, 0, 3]), rng.choice(['text', 'tlv', 'both']))])
     put_order = {id(c): i for i, c in enumerate(pools)}
     pending_puts = list(pools)
     while any(pools):
@@ -171,13 +179,14 @@ def oracle(history, obs):
     for ev in history:
         if ev[0] == 'put':
             _k, uid, sq, log, sar = ev
-            logs[sq] = (log, sar)
             if sar[2] > 0:
                 g = groups.setdefault(log, {'k': sar[2], 'log': log, 'rcpt': {}, 'acc': set(), 'bad': False, 'answered': set()})
     i = -1
     store = {}
+    mid_owner = {}      # message id -> (log, sar) of the request it was the answer to (sequence numbers may be re-used later)
     for ev in history:
         if ev[0] == 'put':
+            logs[ev[2]] = (ev[3], ev[4])        # the request outstanding under this number from now on
             continue
         i += 1
         o = obs[i]
@@ -188,7 +197,8 @@ def oracle(history, obs):
                 if sar[2] > 0:
                     groups[log]['answered'].add(sar[1])
                 if status == 0:
-                    store[mid] = sq
+                    store[mid] = (log, sar)
+                    mid_owner.setdefault(mid, (log, sar))
                     if sar[2] > 0:
                         groups[log]['acc'].add(sar[1])
                 elif sar[2] > 0:
@@ -205,13 +215,7 @@ def oracle(history, obs):
             if o[0] != 2 or o[2] != 0:
                 return f'receipt naming unknown/absent id {mid} reached the hook as {o}'
             continue
-        sq = store.pop(mid)
-        # find message
-        owner = None
-        for ev2 in history:
-            if ev2[0] == 'put' and ev2[2] == sq:
-                owner = ev2
-        log, sar = owner[3], owner[4]
+        log, sar = store.pop(mid)
         if sar[2] == 0:
             if o[0] != 2 or o[2] != log or o[1] != uid:
                 return f'receipt for message id {mid} (log {log}) reached the hook as {o}'
@@ -246,8 +250,7 @@ def oracle(history, obs):
     for ref, g in groups.items():
         if len(g['acc']) != g['k'] or g['bad']:
             continue
-        seqs = [e[2] for e in history if e[0] == 'put' and e[3] == g['log'] and e[4][2] > 0]
-        gm = [m_ for m_, sq in mids.items() if sq in seqs]
+        gm = [m_ for m_ in mids if mid_owner.get(m_, (None, (0, 0, 0)))[0] == g['log'] and mid_owner[m_][1][2] > 0]
         idxs = [first_rcpt[m_] for m_ in gm if m_ in first_rcpt]
         hits = [j for j, o in enumerate(obs) if o[0] == 2 and o[2] == g['log']]
         if len(idxs) == g['k']:
@@ -293,9 +296,8 @@ def run(ctx):
         thr = esme.throttle_handler
         c = esme.correlator
         flat += [-5, thr.throttle_responses, thr.non_throttle_responses, -7]
-        uid_of_seq = {ev[2]: ev[1] for ev in hist if ev[0] == 'put'}
         for k, v in c._store._data.items():
-            flat += [int(k), uid_of_seq[int(k)]]
+            flat += [int(k), v[1]._vuid]
         flat += [-8] + [int(k) for k in c._segment_store._data.keys()] + [-9]
         for k, ss in c._segment_status_store._data.items():
             flat += [core.status_key(k)]
@@ -304,7 +306,7 @@ def run(ctx):
             flat += [-1]
         flat += [-10]
         for k, v in c._delivery_store._data.items():
-            flat += [int(k), uid_of_seq[v[1].sequence_num]]
+            flat += [int(k), v[1]._vuid]
         cases.append((coq_events(hist), czl(flat)))
         ctx.case(('hist', i, repr(hist)), nontrivial=any(o[0] == 2 and o[2] != 0 for o in obs))
         for ev in hist:
@@ -335,6 +337,29 @@ def run(ctx):
                 break
         if msg:
             ctx.violation(msg, {'function': 'history', 'history': [list(e) for e in hist]})
+    # ---- a sequence number that comes round again (restart on a persisted correlator: the generator starts at 1 again, receipts of
+    #      the previous run are still to come)
+    base_plain = [('put', 1, 5, 1, (0, 0, 0)), ('resp', 2, 0x80000004, 5, 0, 501)]
+    base_seg = [('put', 1, 5, 1, (7, 1, 2)), ('put', 2, 6, 1, (7, 2, 2)), ('resp', 3, 0x80000004, 5, 0, 501), ('resp', 4, 0x80000004, 6, 0, 502)]
+    later = {'plain': [('put', 5, 5, 2, (0, 0, 0)), ('resp', 6, 0x80000004, 5, 0, 503)],
+             'plain_unanswered': [('put', 5, 5, 2, (0, 0, 0))],
+             'segmented': [('put', 5, 5, 2, (9, 1, 2)), ('put', 6, 6, 2, (9, 2, 2)), ('resp', 7, 0x80000004, 5, 0, 503), ('resp', 8, 0x80000004, 6, 0, 504)],
+             'segmented_same_reference': [('put', 5, 5, 2, (7, 1, 2)), ('put', 6, 6, 2, (7, 2, 2)), ('resp', 7, 0x80000004, 5, 0, 503),
+                                          ('resp', 8, 0x80000004, 6, 0, 504)]}
+    for older, base in (('unsegmented', base_plain), ('segmented', base_seg)):
+        for name, mid_events in later.items():
+            for rorder in ((501, 502, 503, 504), (503, 504, 501, 502)):
+                hist = base + mid_events + [('rcpt', 10 + j, m, 0, 'text') for j, m in enumerate(rorder)]
+                out, _esme = asyncio.run(run_real(hist))
+                obs = observe(out, None)
+                ctx.traces += 1
+                ctx.case(('sequence_number_reuse', older, name, rorder), nontrivial=True)
+                msg = oracle(hist, obs)
+                if msg:
+                    text = (f'an {older} message accepted under sequence number 5{"/6" if older == "segmented" else ""} waits for its receipt(s); a newer '
+                            f'message ({name}) is sent under the same number(s); receipts arrive for ids {rorder}: {msg}')
+                    ctx.violation(text, {'function': 'history', 'history': [list(e) for e in hist],
+                                         'finding_key': 'sequence-number-reused-while-segmented-message-awaits-receipts' if older == 'segmented' else None})
     if proved or not getattr(ctx, 'build_failing', None):
         bad, errs = core.run_cases('C02', 'handlers', IMPORTS, 'fun evs : list hevent => ser_hrun evs', cases, shard=120)
         for fnm, out in errs:
